@@ -67,6 +67,14 @@ def abstract_fields(fields, npos=None, version=None):
         f = pos[1:]
         if npos == 3:
             num = [_pos(pos[1])[0]]
+        else:                      # GFA1: LN tag, else the length of the sequence, else unknown (-1)
+            ln = [t[5:] for t in tags if t.startswith("LN:i:")]
+            if ln and re.fullmatch(r"[0-9]{1,9}", ln[0]):
+                num = [int(ln[0])]
+            elif pos[1] != "*":
+                num = [len(pos[1])]
+            else:
+                num = [-1]
     elif rt in ("L", "C"):
         refs = [[pos[0], pos[1]], [pos[2], pos[3]]]
         f = pos[4:]
